@@ -316,6 +316,13 @@ func (w *World) noteCallee(mi *modInfo, calls map[*ssa.Function][]*ssa.Function,
 		for _, k := range lm.ModKeys {
 			mi.keys[k] = true
 		}
+		if !lm.WritesArgs {
+			return
+		}
+		ok = false
+	}
+	if lm.WritesArgs {
+		w.notePointerArgs(mi, c)
 		return
 	}
 	pol := CallFresh
@@ -328,7 +335,11 @@ func (w *World) noteCallee(mi *modInfo, calls map[*ssa.Function][]*ssa.Function,
 	case CallEvent:
 		mi.trace = true
 	}
-	// writes through pointer args: keys of reachable types
+	w.notePointerArgs(mi, c)
+}
+
+// notePointerArgs: writes through pointer arguments: keys of reachable types.
+func (w *World) notePointerArgs(mi *modInfo, c *ssa.CallCommon) {
 	tmp := &FuncEnc{W: w, D: NewDecls()}
 	tmp.heapSorts = map[string]string{}
 	for _, a := range c.Args {
@@ -339,6 +350,10 @@ func (w *World) noteCallee(mi *modInfo, calls map[*ssa.Function][]*ssa.Function,
 		if p, ok := t.Underlying().(*types.Pointer); ok {
 			for _, lf := range tmp.leaves(p.Elem(), func(s string) string { return s }, 0) {
 				mi.keys[lf.key] = true
+				if mt, isMap := lf.typ.Underlying().(*types.Map); isMap {
+					vk, hk, _, _, _, _ := tmp.mapKeys(mt)
+					mi.keys[vk], mi.keys[hk] = true, true
+				}
 			}
 		}
 	}
